@@ -327,6 +327,7 @@ def run_shard(exe, job, prop, tier, seed, shard, odir, rdir):
         env['ASAN_OPTIONS'] = env['ASAN_OPTIONS'].replace('detect_leaks=1', job.env['ASAN_OPTIONS_EXTRA'])
     timeout = job.timeout or (900 if tier == 'quick' else 7200)
     start_case, restarts, notes = 0, 0, []
+    t_shard = time.time()
     while True:
         cmd = base + (['--start-case', str(start_case)] if start_case else [])
         if job.runner:
@@ -340,7 +341,7 @@ def run_shard(exe, job, prop, tier, seed, shard, odir, rdir):
             break
         res = open(out + '.res', errors='replace').read() if os.path.exists(out + '.res') else ''
         m = re.findall(r'^(?:HANG|CRASH)\t(\d+)$', res, re.M)
-        if rc in (41, 42) and m and restarts < 100:   # 100 hung or crashed cases per shard are evidence enough; the shard then ends without DONE (reported)
+        if rc in (41, 42) and m and restarts < (60 if tier == 'quick' else 4000):   # 100 hung or crashed cases per shard are evidence enough; the shard then ends without DONE (reported)
             start_case = int(m[-1]) + 1
             restarts += 1
             continue
@@ -349,6 +350,8 @@ def run_shard(exe, job, prop, tier, seed, shard, odir, rdir):
                 notes.append('%s shard %d ended abnormally (rc=%s) without DONE; tail: %s' % (
                     job.tag, shard, rc, tail(out + '.stdout')))
         break
+    if os.environ.get('VF_TIMING'):
+        print('TIMING %-28s shard %2d  %.1fs  restarts=%d' % (job.tag, shard, time.time() - t_shard, restarts), flush=True)
     return out, notes
 
 
